@@ -40,9 +40,13 @@ SHIPPED = {
     "base_e_maths": [["x", "a"], ["inv", "exp", "log_abs"], ["+", "*", "-", "/", "pow"]],
 }
 SUB = {
+    "verif_powroot": [["x", "a"], ["inv", "sqrt_abs"], ["/", "pow"]],
     "verif_cube": [["x", "a"], ["cube", "inv", "log_abs"], ["+", "*", "-"]],
     "verif_nominus": [["x", "a"], ["inv", "log_abs", "square"], ["+", "*", "/"]],
 }
+
+
+REGENERATED = {("core_maths", 4), ("verif_cube", 4)}
 
 
 def coq_str(s):
@@ -71,7 +75,7 @@ def lt_of(labels, shape):
 def libs(ctx):
     if ctx.quick:
         return [("core_maths", 4, 400), ("keep_duplicates", 3, 400), ("ext_maths", 3, 300), ("osc_maths", 3, 200),
-                ("base10_maths", 3, 200), ("base_e_maths", 4, 300), ("verif_cube", 4, 300), ("verif_nominus", 4, 300)]
+                ("base10_maths", 3, 200), ("base_e_maths", 4, 300), ("verif_cube", 4, 300), ("verif_nominus", 4, 300), ("verif_powroot", 5, 400)]
     out = [(b, n, 4000) for b in SHIPPED for n in (1, 2, 3, 4)] + [("core_maths", 5, 4000), ("core_maths", 6, 1500),
             ("keep_duplicates", 5, 2500), ("ext_maths", 5, 2500), ("base_e_maths", 5, 2000)]
     out += [(b, n, 3000) for b in SUB for n in (3, 4, 5)]
@@ -90,6 +94,9 @@ def correspondence(ctx):
         basis = SHIPPED.get(runname) or SUB[runname]
         extra = {"ESR_VERIF_BASIS": json.dumps(basis)} if runname.startswith("verif_") else None
         rc, out, err = esrv.run_py(dst, GEN, [runname, str(n)], extra=extra, timeout=3000)
+        if rc == 0 and (runname, n) in REGENERATED:
+            # a library regenerated in place (the usual way of re-running ESR) must still be line-aligned
+            rc, out, err = esrv.run_py(dst, GEN, [runname, str(n)], extra=extra, timeout=3000)
         if rc != 0:
             rep.fail("failing-input", "generation fails for %s n=%d: %s" % (runname, n, err.strip().splitlines()[-1:]),
                      "C02:generation-crash", input={"basis": runname, "n": n}, observed=err[-800:])
@@ -100,6 +107,10 @@ def correspondence(ctx):
             rep.fail("broken-correspondence", "c02 driver failed on %s n=%d" % (runname, n), "C02:driver", observed=err[-1500:], theorem="C02 tie")
             continue
         d = json.loads(out)
+        if d.get("nstrings") != d["nlines"]:
+            rep.fail("failing-input", "trees_%d.txt has %d lines but all_equations_%d.txt has %s (%s%s): strings are not on the line of their tree" % (
+                n, d["nlines"], n, d.get("nstrings"), runname, ", regenerated in place" if (runname, n) in REGENERATED else ""),
+                "C02:line-count", input={"basis": runname, "n": n, "regenerated_in_place": (runname, n) in REGENERATED})
         dist["%s/%d" % (runname, n)] = {"lines": d["nlines"], "explored": len(d["lines"])}
         for rec in d["lines"]:
             rec["lib"], rec["n"], rec["points"] = runname, n, d["points"]
